@@ -305,6 +305,15 @@ func (f *Fam) Gen(r *rand.Rand, i int) string {
 // ---------- oracle: views
 
 // view returns the expected content of layer i as a map.
+func (f *Fam) hasKind(kind string) bool {
+	for _, l := range f.layers {
+		if l.kind == kind {
+			return true
+		}
+	}
+	return false
+}
+
 func (f *Fam) view(i int) map[string][]byte {
 	l := f.layers[i]
 	switch l.kind {
@@ -523,7 +532,25 @@ func (f *Fam) Exec(op string) (string, []common.Failure) {
 			l.store = tracekv.NewStore(p.store, &f.tbuf, nil)
 		}
 		f.layers = append(f.layers, l)
-		return "ok", nil
+		if w[1] == "pfx" && p.kind == "pfx" && len(l.pre) > 0 && !f.hasKind("gas") && !f.hasKind("trace") {
+			// a sibling sub-store made from the same outer prefix store (whose prefix slice has spare capacity) must not
+			// move this one: it still sees exactly its own keys
+			sibRaw := append(make([]byte, 0, len(l.pre)+16), l.pre...)
+			sibRaw[0] ^= 0x55
+			_ = prefix.NewStore(p.store, sibRaw)
+			f.extra["c16:sibling-sub-prefix-store"]++
+			want := f.view(len(f.layers) - 1)
+			got := map[string][]byte{}
+			it := l.store.Iterator(nil, nil)
+			for ; it.Valid(); it.Next() {
+				got[string(it.Key())] = append([]byte{}, it.Value()...)
+			}
+			it.Close()
+			if !sameMap(want, got) {
+				fail("prefix-isolation", "C16:sibling-prefix-store-disturbed", fmt.Sprintf("%s: after a sibling sub-store under %x was made, the sub-store under %x holds %d keys, its own key space %d", op, sibRaw, l.pre, len(got), len(want)))
+			}
+		}
+		return "ok", fails
 	case "pop":
 		if len(f.layers) <= 1 {
 			return "bad-op", nil
